@@ -3103,6 +3103,10 @@ class Client:
             else:
                 if len(command) == 0:
                     return MQTTErrorCode.MQTT_ERR_CONN_LOST
+                if command[0] == 0:
+                    # Packet type 0 is reserved. 0 also means "no command byte read
+                    # yet" in _in_packet, so it must not be stored.
+                    return MQTTErrorCode.MQTT_ERR_PROTOCOL
                 self._in_packet['command'] = command[0]
 
         if self._in_packet['have_remaining'] == 0:
